@@ -405,7 +405,7 @@ def run_jobs(chk, jobs, label, keep=None):
             key = classify(job, ev, clause)
             ks = json.dumps(key, sort_keys=True)
             seen[ks] = seen.get(ks, 0) + 1
-            if seen[ks] == 1:
+            if seen[ks] == 1 and ks not in chk.notes.get("violations_by_key", {}):
                 small = {k: (v2 if not isinstance(v2, list) or len(v2) <= 40 else v2[:40] + ["..."])
                          for k, v2 in ev.items() if k not in ("rows", "probes", "calls")}
                 chk.violation(key, {"scenario": job, "clause": clause, "detail": detail[:1500], "event": small})
